@@ -554,7 +554,18 @@ func genExtract(t *rapid.T) *ExtractCase {
 	c.N = rapid.IntRange(1, 4).Draw(t, "n")
 	c.K = rapid.IntRange(1, np+1).Draw(t, "k")
 	c.Inplace = rapid.Bool().Draw(t, "inplace")
-	c.Death = rapid.SampledFrom([]string{"kill", "kill", "kill", "err"}).Draw(t, "death")
+	c.Death = rapid.SampledFrom([]string{"kill", "kill", "kill", "err", "strace-kill", "strace-kill", "strace-err"}).Draw(t, "death")
+	if c.straced() { // final_test.go: the whole run under strace, one call killed or failed
+		fams := []string{"rename", "rename", "unlink", "unlink", "truncate", "open", "open", "link", "chmod"}
+		if c.Death == "strace-err" {
+			fams = []string{"rename", "rename", "unlink", "truncate"}
+			c.Errno = rapid.SampledFrom([]string{"EIO", "EXDEV", "ENOSPC", "EACCES"}).Draw(t, "errno")
+		}
+		fam := rapid.SampledFrom(fams).Draw(t, "family")
+		c.Syscall = xFamilies[fam]
+		c.When = rapid.IntRange(1, map[string]int{"rename": 2, "unlink": 8, "truncate": 2, "open": 24, "link": 1, "chmod": 1}[fam]).Draw(t, "when")
+		c.K = 0
+	}
 	c.Prior = rapid.SampledFrom([]string{"absent", "absent", "empty", "garbage", "partial", "partial", "complete"}).Draw(t, "prior")
 	c.PriorSeed = rapid.Uint64().Draw(t, "pseed")
 	c.PriorLen = rapid.IntRange(1, 20000).Draw(t, "plen")
@@ -573,21 +584,25 @@ var spec = &hx.Spec[Case]{
 	Level: "fault_enumeration",
 	Rule: "store cases = (1..4 chunks, compressed or not, 1 pinned writer or 2..4 concurrent writers incl. the same chunk from several, optional pre-existing chunk/prefix directory, " +
 		"crash point = SIGKILL at the entry of the c-th mkdirat/openat/write/close/renameat/unlinkat of the writer thread (strace inject), or RLIMIT_FSIZE=b with and without a kill at the write that follows the cut one); " +
-		"extract cases = (1..10 chunk positions over 1..7 distinct chunks, -n 1..4, with/without -k, prior destination absent/empty/garbage/partly right/complete, SIGKILL while the k-th chunk request is held, or a 404 on it). " +
+		"extract cases = (1..10 chunk positions over 1..7 distinct chunks, -n 1..4, with/without -k, prior destination absent/empty/garbage/partly right/complete, SIGKILL while the k-th chunk request is held, or a 404 on it, " +
+		"or the whole extract under strace -f with all requests answered and the c-th (per thread) open*/truncate/unlink*/rename*/link*/chmod* call killed at its entry or failed with EIO/EXDEV/ENOSPC/EACCES: " +
+		"oracle for non -k = destination byte- and inode-identical to before, or the complete blob once a rename/link onto it was seen to return 0; for -k the re-run oracle). " +
 		"non-trivial = the store child died while a temporary created by StoreChunk existed and was not yet renamed (seen in the strace log) or a write was cut at 0 < b < stored length; " +
-		"extract died after >=1 and before the last distinct chunk was served. distinct by (content hash, mode, syscall, count, b) / (shape, n, k, mode, prior, chunks served)",
+		"extract died after >=1 and before the last distinct chunk was served, or (strace modes) died at/after a call that names a path in the output directory. distinct by (content hash, mode, syscall, count, b) / (shape, n, k, mode, prior, chunks served, syscall set, c, errno)",
 	Assumptions: []string{
 		"process death = SIGKILL (no power loss, no page-cache loss); crash points are system-call entries, the observable state only changes there",
 		"strace keeps inject when= counters per thread and per system call; a writer locked to its OS thread makes the enumeration deterministic (checked against the log of every run)",
 		"chunk files are validated with klauspost zstd and crypto/sha512 directly; a name is a chunk name if it is <64 hex>[.cacnk]",
 		"leftovers are looked for in the store, in the child's TMPDIR and in its working directory",
 		"extract: death is SIGKILL while the harness' HTTP server holds a chunk request, plus self-inflicted death on a 404; SIGINT/SIGTERM belong to C07",
+		"extract under strace: when= counts per thread and the Go runtime places the work freely, so (syscall, c) = the first thread reaching its c-th call; c runs to the process-wide total of the dry run; the call really hit is read from the log. Only directory-visible calls are crash points there (data writes are covered by the request-held kills)",
 	},
 	Required: []string{"store:single-writer", "store:multi-writer", "store:compressed", "store:uncompressed", "store:killed-with-temp-present", "store:multi-killed-with-temp-present",
 		"store:write-cut-short", "store:write-cut-short+killed", "store:fsize=0", "store:leftover-pruned", "store:same-chunk-twice", "store:overwrites-existing-chunk", "store:not-killed",
 		"store:killed-at=mkdirat", "store:killed-at=openat", "store:killed-at=write", "store:killed-at=close", "store:killed-at=renameat", "store:killed-at=unlinkat",
 		"extract:inplace-died-midway", "extract:tmpfile-died-midway", "extract:prior=absent", "extract:prior=partial", "extract:prior=garbage", "extract:n>1", "extract:death=kill", "extract:death=err",
-		"extract:rerun-with-some-present"},
+		"extract:rerun-with-some-present",
+		"extract:death=strace-kill", "extract:death=strace-err", "extract:final-phase-kill", "extract:killed-at-rename", "extract:rename-failed", "extract:inplace-syscall-death"},
 	Gen: genCase,
 	Run: run,
 }
@@ -772,15 +787,77 @@ func multiSamples() (cases []Case) {
 	return cases
 }
 
-func enumExtract() (cases []Case) {
-	layouts := []struct {
-		chunks []ChunkSpec
-		layout []int
-	}{
+type xLayout struct {
+	chunks []ChunkSpec
+	layout []int
+}
+
+func enumLayouts() []xLayout {
+	return []xLayout{
 		{[]ChunkSpec{{Kind: "rand", Len: 300, Seed: 21}, {Kind: "text", Len: 500, Seed: 22}, {Kind: "rand", Len: 40, Seed: 23}, {Kind: "rand", Len: 500, Seed: 24}}, []int{0, 1, 2, 3}},
 		{[]ChunkSpec{{Kind: "rand", Len: 5000, Seed: 25}, {Kind: "rand", Len: 70000, Seed: 26}, {Kind: "zero", Len: 70000}, {Kind: "text", Len: 4096, Seed: 27}, {Kind: "rand", Len: 1, Seed: 28}},
 			[]int{0, 1, 2, 0, 3, 4, 1}},
 	}
+}
+
+// enumFinalConfigs: the contents whose every (syscall, c) is tried under strace (final_test.go).
+func enumFinalConfigs() (bases []ExtractCase) {
+	ls := enumLayouts()
+	add := func(li, n int, inplace bool, prior string) {
+		bases = append(bases, ExtractCase{Chunks: ls[li].chunks, Layout: ls[li].layout, N: n, Inplace: inplace, Prior: prior,
+			PriorSeed: uint64(0x5a5a5a5a5a5a5a5a) >> uint(li), PriorLen: 1234})
+	}
+	for li := range ls {
+		for _, n := range hx.Pick([][]int{{1}, {3}}[li], []int{1, 3}) {
+			for _, prior := range hx.Pick([]string{"absent", "garbage", "partial"}, []string{"absent", "empty", "garbage", "partial", "complete"}) {
+				add(li, n, false, prior)
+			}
+		}
+	}
+	add(0, 1, true, "partial")
+	add(1, 3, true, "absent")
+	if hx.Thorough() {
+		add(0, 3, true, "absent")
+		add(1, 1, true, "partial")
+		add(1, 2, true, "garbage")
+	}
+	return bases
+}
+
+// enumFinal lists the undisturbed traced run, a kill at every (syscall, c) of one content, and an
+// injected error at every rename*/link*/unlink*/truncate call.
+func enumFinal(base ExtractCase) (cases []Case, points int) {
+	names, totals := finalPhasePoints(base)
+	add := func(death, sys string, when int, errno string) {
+		c := base
+		c.Death, c.Syscall, c.When, c.Errno = death, sys, when, errno
+		cases = append(cases, Case{Part: "extract", Extract: &c})
+	}
+	add("strace-kill", "", 0, "")
+	for _, s := range names {
+		for k := 1; k <= totals[s]; k++ {
+			add("strace-kill", s, k, "")
+			points++
+			var errnos []string
+			switch {
+			case strings.HasPrefix(s, "rename") || strings.HasPrefix(s, "link"):
+				errnos = []string{"EIO", "EXDEV"}
+			case strings.HasPrefix(s, "unlink") || s == "rmdir":
+				errnos = []string{"EIO"}
+			case strings.Contains(s, "truncate") || s == "fallocate":
+				errnos = []string{"ENOSPC"}
+			}
+			for _, e := range errnos {
+				add("strace-err", s, k, e)
+				points++
+			}
+		}
+	}
+	return cases, points
+}
+
+func enumExtract() (cases []Case) {
+	layouts := enumLayouts()
 	ns := hx.Pick([]int{1, 3}, []int{1, 2, 3, 4})
 	priors := hx.Pick([]string{"absent", "partial"}, []string{"absent", "empty", "garbage", "partial", "complete"})
 	for li, l := range layouts {
@@ -840,8 +917,22 @@ func TestEnum(t *testing.T) {
 		}
 	}
 	pool(t, my)
-	if !t.Failed() {
-		hx.AddNote("enumerated_extract_kill_points", len(my))
-		hx.Exhaustive("extract: every request index k for two fixed layouts x listed (n, -k, prior, death) grid")
+	if t.Failed() {
+		return
+	}
+	hx.AddNote("enumerated_extract_kill_points", len(my))
+	hx.Exhaustive("extract: every request index k for two fixed layouts x listed (n, -k, prior, death) grid")
+	for i, base := range enumFinalConfigs() {
+		if !mine() {
+			continue
+		}
+		cases, points := enumFinal(base)
+		pool(t, cases)
+		if t.Failed() {
+			return
+		}
+		hx.AddNote("enumerated_extract_syscall_points", points)
+		hx.Exhaustive(fmt.Sprintf("extract under strace, content %d (%d positions, n=%d, -k=%v, prior %s): SIGKILL at every (directory-visible syscall, c<=process total of the dry run) + injected error at every rename*/link*/unlink*/truncate call",
+			i, len(base.Layout), base.N, base.Inplace, base.Prior))
 	}
 }
